@@ -182,7 +182,9 @@ class LocalShare:
 
     def __addPackage(self, buildId, size):
         def update(f):
-            meta = json.load(f)
+            # The file may still be empty if we raced with its creator.
+            data = f.read()
+            meta = json.loads(data) if data else {}
             meta.setdefault("pkgs", {})[asHexStr(buildId)] = size
             f.seek(0)
             f.truncate()
@@ -200,10 +202,11 @@ class LocalShare:
                     return update(f)
             except FileNotFoundError:
                 # Unusual case: does not exist yet -> create atomically.
+                # Somebody else might lock the new file before us. Must do
+                # a regular update after we got the lock.
                 try:
-                    with OpenLocked(fn, "x", True) as f:
-                        json.dump({"pkgs" : {asHexStr(buildId) : size}}, f)
-                        return size
+                    with OpenLocked(fn, "x+", True) as f:
+                        return update(f)
                 except FileExistsError:
                     # Almost impossible case: lost creation race -> update
                     with OpenLocked(fn, "r+", True) as f:
